@@ -32,7 +32,7 @@ fn meta() -> Meta {
     Meta {
         id: "C06",
         level: "model_checking",
-        rule: "every sequence of runs up to the depth bound, each run = (append on/off) x (clock +0 s | +1 s before the start) x shape in {no write, W, WWW (criterion rotates once), W R W}, for every configuration (naming x cleanup incl. compression, two file-name shapes, non-rotating file); states = distinct canonical directories (names with instants relative to the clock, sizes) reached, transitions = runs executed; non-trivial = sequence with >= 2 runs that wrote records; plus configurations starting from a directory that already holds app_r99998.log (numbering passes five digits); plus configurations starting from app_r00001.log, app_r00002.log.gz, app_r00003.log.gz (a plain file older than compressed ones); plus configurations starting from app_r00001.log.gz, app_r00002.log.gz (only compressed files); with append the first record of a run follows the previous run's last record in the same file unless that file was over the size limit; configurations with suffix err.log, with a basename containing a dot and no suffix, and with a limit of one file for the direct timestamp namings",
+        rule: "every sequence of runs up to the depth bound, each run = (append on/off) x (clock +0 s | +1 s before the start) x shape in {no write, W, WWW (criterion rotates once), W R W}, for every configuration (naming x cleanup incl. compression, two file-name shapes, non-rotating file); states = distinct canonical directories (names with instants relative to the clock, sizes) reached, transitions = runs executed; non-trivial = sequence with >= 2 runs that wrote records; plus configurations starting from a directory that already holds app_r99998.log (numbering passes five digits); plus configurations starting from app_r00001.log, app_r00002.log.gz, app_r00003.log.gz (a plain file older than compressed ones); plus configurations (number and timestamp namings) starting from a directory with only two compressed files; with append the first record of a run follows the previous run's last record in the same file unless that file was over the size limit; configurations with suffix err.log, with a basename containing a dot and no suffix, and with a limit of one file for the direct timestamp namings",
         assumptions: vec![
             "size limit 15 with 10-byte lines; cleanup runs synchronously; direct write mode".into(),
             "names that were removed by the cleanup limit may be used again (the property speaks of names that exist)".into(),
@@ -157,7 +157,7 @@ fn grid() -> Vec<Case> {
             });
         }
     }
-    for naming in [NamingK::Numbers, NamingK::NumbersDirect] {
+    for naming in [NamingK::Numbers, NamingK::NumbersDirect, NamingK::Timestamps, NamingK::TimestampsDirect] {
         for clean in [CleanK::Never, CleanK::Gz(6), CleanK::LogGz(1, 4)] {
             g.push(Case {
                 cfg: Cfg::rot(CritK::Size(LIMIT), naming, clean),
@@ -282,7 +282,12 @@ fn run_history(c: &Case, word: &[(bool, i64, usize)]) -> Result<Vec<Vec<(String,
         }
         for (i, gz) in seed {
             let line = format!("seed-{i}\n").into_bytes();
-            let name = format!("app_r{i:05}.log{}", if gz { ".gz" } else { "" });
+            // (timestamp namings: the name carries the virtual instant of the seeding)
+            let logical = match c.cfg.naming() {
+                Some(NamingK::Timestamps | NamingK::TimestampsDirect) => format!("app_r{}.log", env.clock.peek().format("%Y-%m-%d_%H-%M-%S")),
+                _ => format!("app_r{i:05}.log"),
+            };
+            let name = format!("{logical}{}", if gz { ".gz" } else { "" });
             if gz {
                 let f = std::fs::File::create(env.dir.join(&name)).expect("create seed gz");
                 let mut e = flate2::write::GzEncoder::new(f, flate2::Compression::fast());
@@ -294,7 +299,7 @@ fn run_history(c: &Case, word: &[(bool, i64, usize)]) -> Result<Vec<Vec<(String,
             env.observe();
             env.clock.advance_secs(1);
             h.accepted.push(line.clone());
-            prev.insert(format!("app_r{i:05}.log"), line);
+            prev.insert(logical, line);
             prev_names.push(name);
         }
     }
